@@ -1067,6 +1067,22 @@ pub(crate) mod alloc {
             - BlsScalar::one())
             * domain.size_inv;
 
+        // A point of the domain is a root of the numerator and of exactly one
+        // denominator, so the quotient below would read 0/0 as 0. The
+        // interpolant takes the evaluation at that node.
+        if numerator == BlsScalar::zero() {
+            let mut node = BlsScalar::one();
+            for i in 0..domain.size() {
+                if &node == point {
+                    return evaluations
+                        .get(i)
+                        .copied()
+                        .unwrap_or(BlsScalar::zero());
+                }
+                node *= domain.group_gen;
+            }
+        }
+
         // Indices with non-zero evaluations
         #[cfg(not(feature = "std"))]
         let range = (0..evaluations.len()).into_iter();
